@@ -127,7 +127,7 @@ fn same_listing(ctx: &mut Ctx, x: &[Instruction], y: &[Instruction]) -> Result<(
 fn run(ctx: &mut Ctx) {
     let tier = ctx.tier;
     let (seed, shard) = (ctx.seed, ctx.shard);
-    let n_cases = ctx.share(tier.pick(160_000, 2_000_000));
+    let n_cases = ctx.share(tier.pick(480_000, 4_000_000));
     for k in 0..n_cases {
         let case = gen_case(seed, shard, k);
         let desc = format!(
